@@ -497,7 +497,7 @@ Ltac solve_row :=
   end.
 Ltac solve_rows :=
   repeat first [ apply rows_nil
-               | apply rows_cons; [discriminate|compute_emitted; solve_row|] ].
+               | apply rows_cons; [compute_emitted; solve_row|] ].
 
 (* ---------------------------------------------------------------- topic *)
 Lemma topic_table_ok : forall r, tbl_fits (topic_wtable TI ti_w) r -> table_ok (topic_wtable TI ti_w) r.
@@ -581,7 +581,7 @@ End WithTypeInformation.
 (* ---------------------------------------------------------------- participant *)
 Ltac solve_rows_p :=
   repeat first [ apply rows_nil
-               | apply rows_cons; [discriminate|compute_emitted; solve_row_generic|] ].
+               | apply rows_cons; [compute_emitted; solve_row_generic|] ].
 
 Lemma participant_table_ok : forall r, tbl_fits participant_wtable r -> table_ok participant_wtable r.
 Proof.
